@@ -246,6 +246,8 @@ partial def eval (env : Env) (g : G) (c : Nat) (e : E) : G × Out :=
                     | some t, some sd =>
                       if t ≤ 0 then err g "骰点次数不为正整数" else
                       if sd ≤ 0 then err g "骰子面数不为正整数" else
+                      if dmin.isSome && (readInt vmin).isNone then err g "骰子的 min 参数不为整数" else
+                      if dmax.isSome && (readInt vmax).isNone then err g "骰子的 max 参数不为整数" else
                       let kk : Int := match k with | none => 1 | some _ => (readInt vk).getD 0
                       if (keepLH == 1 || keepLH == 3) && kk ≤ 0 then err g "骰子取低个数不为正整数" else
                       if (keepLH == 2 || keepLH == 4) && kk ≤ 0 then err g "骰子取高个数不为正整数" else
